@@ -72,6 +72,8 @@ def audit_identifiers(code_lines: List[str], class_lines: List[str], minted: Lis
     ctext = "\n".join(class_lines)
     # brace depth / block id per character position
     for name in dict.fromkeys(minted):
+        if not re.fullmatch(r"[A-Za-z_][A-Za-z0-9_]*", name):
+            return f"minted identifier {name!r} is not an identifier of the basic source character set (the compilers of the target releases reject it)"
         occ = [m.start() for m in re.finditer(rf"(?<![\w]){re.escape(name)}(?![\w])", text)]
         if not occ:
             continue
@@ -196,6 +198,13 @@ def run(ctx: Ctx) -> int:
                                f"ds.Select(lambda e: (e.{C}('A').Select(lambda j: j.ttype()), e.{C}('A').Select(lambda j: j.tracks().Select(lambda t: j.ttype()))))",
                                f"ds.SelectMany(lambda e: e.{C}('A')).Select(lambda j: (j.ttype(), j.hits().Select(lambda h: j.ttype())))"]):
             cases.append(diff.Case(backend, t, evgen.gen_events(s, ctx.rng("tt", backend, i), 3), diff.members_used(s, t), tag={"features": {"tree_type_nesting": 2, f"t{i}": 1}}))
+    # column labels outside ASCII: the names minted from them must still be identifiers of the basic source character set
+    for backend in sch.BACKENDS:
+        s = sch.fixed(backend)
+        C = s["main"]["coll"]
+        for i, t in enumerate([f"ds.Select(lambda e: {{'Δη': e.{C}('A').Select(lambda j: j.eta()), 'pt_µ': e.{C}('A').Select(lambda j: j.pt()), 'met²': e.{C}('A').Count()}})",
+                               f"ResultTTree(ds.SelectMany(lambda e: e.{C}('A')).Select(lambda j: (j.pt(), j.eta())), ['μ_φ', 'ünï'], 'tree', 'f.root')"]):
+            cases.append(diff.Case(backend, t, evgen.gen_events(s, ctx.rng("na", backend, i), 2), diff.members_used(s, t), tag={"features": {"non_ascii_labels": 2, f"t{i}": 1}}))
     trs = eng.translate(cases, monitors=["vf.props.c02:name_monitor"])
     for c in cases:
         eng.model(c.backend)
